@@ -10,6 +10,7 @@
 -/
 import DdnnfVerif.Proofs.AtomicCross
 import DdnnfVerif.Props.C07
+import DdnnfVerif.Proofs.UnionFind5
 namespace Ddnnf.C08
 
 /-- plain mode: `S` is reported iff it is the ascending list of a class, with at least two members,
@@ -92,5 +93,42 @@ theorem report_independent_of_samples (nodes : List NType) (n : Nat) (h : WF nod
     S ∈ atomicSets nodes n cands A false samples ↔ S ∈ atomicSets nodes n cands A false [] := by
   rw [atomicSets_plain_exact nodes n h hu A hA cands hc samples hs S,
     atomicSets_plain_exact nodes n h hu A hA cands hc [] (by intro s hs; cases hs) S]
+
+/-! ### the union-find structure of the code (Model/UnionFind.lean)
+
+`UF.atomicSetsUF` is the same algorithm with `UnionFind<i16>` transcribed as it is written: `parents`
+and `rank` maps, `find` with path compression (and insertion of unknown nodes), `equiv`, union by rank
+with the rank entries created for both roots before the equality test, `subsets` over the keys of
+`rank`.  It is what the driver executes; the theorems above are about the class-list abstraction. -/
+
+/-- the fuel of the transcribed `find` is never observable: on every state the code can reach (parents
+form a forest) any larger fuel gives the same result -/
+theorem union_find_fuel_is_sufficient (s : UF.State) (h : UF.WF s) (x : Int) (f : Nat)
+    (hf : s.parents.length < f) : UF.findF f s x = UF.find s x :=
+  UF.findF_eq_find s h x f hf
+
+/-- plain mode, unconditionally (any node array, any candidates incl. duplicates, any samples): the
+transcription with the real union-find reports exactly what the class model reports -/
+theorem union_find_refines_the_class_model_plain (nodes : List NType) (n : Nat) (cands : List Nat)
+    (A : List Int) (samples : List Config) :
+    UF.atomicSetsUF nodes n cands A false samples = atomicSets nodes n cands A false samples :=
+  UF.atomicSetsUF_eq_plain nodes n cands A samples
+
+/-- both modes under the hypotheses of the theorems above (cross mode needs satisfiable assumptions: no
+class then contains a literal together with its complement, whose stored order the clean-up would
+expose) -/
+theorem union_find_refines_the_class_model (nodes : List NType) (n : Nat) (h : WF nodes n)
+    (hu : LitUnique nodes) (A : List Int) (hA : InRange A n) (cands : List Nat)
+    (hc : ∀ f ∈ cands, 1 ≤ f ∧ f ≤ n) (samples : List Config) (hs : SamplesOK nodes A samples)
+    (cross : Bool) (hsat : cross = true → 0 < specCount nodes n A) :
+    UF.atomicSetsUF nodes n cands A cross samples = atomicSets nodes n cands A cross samples :=
+  UF.atomicSetsUF_eq_of_wf nodes n h hu A hA cands hc samples hs cross hsat
+
+/-- … and whenever the prefilter has at least one sample (the code draws 512 unless the assumptions are
+unsatisfiable), for arbitrary arrays and candidates -/
+theorem union_find_refines_the_class_model_with_samples (nodes : List NType) (n : Nat)
+    (cands : List Nat) (A : List Int) (cross : Bool) (samples : List Config) (hs : samples ≠ []) :
+    UF.atomicSetsUF nodes n cands A cross samples = atomicSets nodes n cands A cross samples :=
+  UF.atomicSetsUF_eq_of_samples nodes n cands A cross samples hs
 
 end Ddnnf.C08
